@@ -52,6 +52,15 @@ def main():
                 for c, r in zip(checks[1:], ex.map(lambda c: sh('cd %s && ./xv check %s --tier quick' % (HERE, c)), checks[1:])):
                     results[c] = r
             noisy = [(c, r) for c, r in results.items() if r.returncode != 0]
+            if e.get('expect', '').startswith('alarm:'):
+                # a documented imprecision: reported as such, not counted
+                exp = set(e['expect'][6:].split(','))
+                got = {c for c, _ in noisy}
+                print('%-34s %s' % (e['id'], 'KNOWN IMPRECISION (alarm by %s as documented)' % ','.join(sorted(got)) if got == exp else
+                                    ('documented imprecision no longer alarms' if not got else 'alarms %s, documented %s' % (sorted(got), sorted(exp)))))
+                if got - exp:
+                    bad += 1
+                continue
             print('%-34s %s' % (e['id'], 'silent on all %d checks' % len(checks) if not noisy else 'ALARM: ' + ', '.join('%s rc=%d' % (c, r.returncode) for c, r in noisy)))
             for c, r in noisy:
                 bad += 1
